@@ -225,6 +225,8 @@ pub struct Ran {
     pub o: Observed,
     pub recs: Vec<PollRec>,
     pub calls: Vec<(u64, u64)>,
+    /// polls of an entity stream after it had reported its end
+    pub over: u64,
 }
 
 /// Runs a case against the real code and emits the SERVE-independent `BODY` line.
@@ -232,7 +234,7 @@ pub fn run_case(em: &mut Emit, c: &BodyCase, predf: &dyn Fn(&BodyCase, &Ran) -> 
     let o = observe_serve(&c.q, &c.e);
     let rope = USE_ROPE.with(|r| r.get());
     let ran = match if rope { run_body_rope(&c.q, &c.e, &c.scripts, c.polls) } else { run_body(&c.q, &c.e, &c.scripts, c.polls) } {
-        Some((recs, calls)) => Ran { o, recs, calls },
+        Some((recs, calls)) => Ran { o, recs, calls, over: OVERPOLLS.with(|c| c.get()) },
         None => {
             em.case(
                 &serve_line(&c.q, &c.e, o.now),
@@ -274,7 +276,7 @@ pub fn run_case(em: &mut Emit, c: &BodyCase, predf: &dyn Fn(&BodyCase, &Ran) -> 
         plan => {
             em.case(
                 &body_line(plan, &c.scripts, c.polls),
-                &show_body(&ran.recs, once, if multi { Some(&ran.calls) } else { None }),
+                &show_body(&ran.recs, once, if multi { Some(&ran.calls) } else { None }, ran.over),
                 &p,
                 &class,
             );
